@@ -3,7 +3,9 @@ import OasisModel.Registry.Index
 /-
 Driver for the registry model (C17), line protocol of harness/cmd/registrydrv.
 
-  new <maxNodeExpiration> <debondingInterval> <tx|raw>          fresh state (starts a case)
+  new <maxNodeExpiration> <debondingInterval> <tx|raw> [<thresholds>]   fresh state (starts a case);
+        thresholds = 7 naturals: entity, node-validator, node-compute, node-observer, node-keymanager,
+        runtime-compute, runtime-keymanager
   <op> => <result> | <dump tokens of the real state after the op>
 
 ops (public keys and runtime ids are numbers):
@@ -12,6 +14,11 @@ ops (public keys and runtime ids are numbers):
   regnode <tx> <node> <signers> <sigvalid>          node = id:ent:cons:p2p:tls:vrf:exp:roles:rts
   regruntime <e<k>|r<id>> <id> <ent> <e|r|c> <c|k>
   epoch <e>
+  unfreeze <tx> <id>                                 UnfreezeNode transaction
+  freeze <id> <until>                                environment: status.FreezeEndTime := until
+  setbalance <e<k>|r<id>> <amount>                   environment: Escrow.Active.Balance := amount
+  initchain E=<id>:<nodes>:<signer>:<valid>;.. R=<id>:<ent>:<gov>:<kind>;.. S=<suspended runtimes>
+            N=<node>/<signers>/<valid>;.. T=<id>:<processed>:<freezeEnd>;..      Application.InitChain
   setnode <existing node|-> <node> | removenode <node> | setstatus <id> <0|1> | suspend <rt>   (raw state calls)
 
 Answer per line: `ok` (possibly followed by `NOTE:<observation>` tokens), or `DIVERGE result ...` / `DIVERGE state ...` when the model's result or
@@ -77,6 +84,16 @@ def pair (sep : String) (t : String) : Option (Nat × Nat) :=
   | [a, b] => do pure (← a.toNat?, ← b.toNat?)
   | _ => none
 
+def thrOfIdx : Nat → Option Thr
+  | 0 => some .entity | 1 => some .nodeValidator | 2 => some .nodeCompute | 3 => some .nodeObserver
+  | 4 => some .nodeKeyManager | 5 => some .rtCompute | 6 => some .rtKeyManager | _ => none
+
+def showThrs (l : List Thr) : String :=
+  if l.isEmpty then "-" else ".".intercalate (l.map fun t => toString t.idx)
+
+def parseThrs (t : String) : Option (List Thr) :=
+  if t == "-" then some [] else (t.splitOn ".").mapM fun x => x.toNat? >>= thrOfIdx
+
 /-! ### rendering the model state as the harness' dump tokens -/
 
 def insertStr (x : String) : List String → List String
@@ -113,9 +130,10 @@ def tokens (s : State) : List String :=
   let rawA := s.consAddr.map fun p => s!"a{p.1}>{p.2}"
   let rawB := s.byEntity.map fun p => s!"b{p.1.1}/{p.1.2}"
   let rawO := s.rtByEntity.map fun p => s!"o{p.1.1}/{p.1.2}"
-  let st := s.status.map fun p => s!"S{p.1}:{if p.2.expirationProcessed then 1 else 0}"
-  let cl := s.claims.map fun p => s!"C{showAddr p.1.1}/{showClaim p.1.2}"
-  sortStrs (ents ++ nodes ++ rts ++ apiK ++ apiA ++ apiG ++ apiHn ++ apiHr ++ rawK ++ rawA ++ rawB ++ rawO ++ st ++ cl)
+  let st := s.status.map fun p => s!"S{p.1}:{if p.2.expirationProcessed then 1 else 0}:{p.2.freezeEndTime}"
+  let cl := s.claims.map fun p => s!"C{showAddr p.1.1}/{showClaim p.1.2}={showThrs p.2}"
+  let bal := s.balances.filterMap fun p => if p.2 = 0 then none else some s!"B{showAddr p.1}={p.2}"
+  sortStrs (ents ++ nodes ++ rts ++ apiK ++ apiA ++ apiG ++ apiHn ++ apiHr ++ rawK ++ rawA ++ rawB ++ rawO ++ st ++ cl ++ bal)
 
 /-! ### reading the real state back from the raw dump tokens -/
 
@@ -140,14 +158,50 @@ def readState (p : Params) (epoch : Nat) (toks : List String) : Option State :=
     | some 'a' => do let (k, id) ← pair ">" (tail1 t); pure { s with consAddr := s.consAddr.set k id }
     | some 'b' => do let (e, id) ← pair "/" (tail1 t); pure { s with byEntity := s.byEntity.set (e, id) () }
     | some 'o' => do let (e, r) ← pair "/" (tail1 t); pure { s with rtByEntity := s.rtByEntity.set (e, r) () }
-    | some 'S' => do
-      let (id, p) ← pair ":" (tail1 t)
-      pure { s with status := s.status.set id { expirationProcessed := p == 1 } }
+    | some 'S' => match (tail1 t).splitOn ":" with
+      | [id, p, f] => do
+        pure { s with status := s.status.set (← id.toNat?) { expirationProcessed := p == "1", freezeEndTime := ← f.toNat? } }
+      | _ => none
     | some 'C' => match (tail1 t).splitOn "/" with
-      | [a, c] => do pure { s with claims := s.claims.set (← parseAddr a, ← parseClaim c) () }
+      | [a, c] => match c.splitOn "=" with
+        | [c, ths] => do pure { s with claims := s.claims.set (← parseAddr a, ← parseClaim c) (← parseThrs ths) }
+        | _ => none
+      | _ => none
+    | some 'B' => match (tail1 t).splitOn "=" with
+      | [a, v] => do pure { s with balances := s.balances.set (← parseAddr a) (← v.toNat?) }
       | _ => none
     | some 'K' | some 'A' | some 'G' | some 'H' => some s
     | _ => none
+
+/-! ### genesis documents -/
+
+def items (t : String) (tag : String) : Option (List String) :=
+  match t.splitOn "=" with
+  | [k, v] => if k != tag then none else if v == "-" then some [] else some (v.splitOn ";")
+  | _ => none
+
+def parseRt (susp : Bool) (t : String) : Option Runtime :=
+  match t.splitOn ":" with
+  | [id, ent, g, k] => do
+    pure { id := ← id.toNat?, entity := ← ent.toNat?, gov := ← parseGov g, kind := ← parseKind k, suspended := susp }
+  | _ => none
+
+def parseGenesis (e r su n t : String) : Option Genesis := do
+  let es ← (← items e "E").mapM fun x => match x.splitOn ":" with
+    | [id, ns, sg, v] => do
+      pure ({ id := ← id.toNat?, nodes := ← parseNats ns, signer := ← sg.toNat?, sigValid := v != "0" } : SignedEntity)
+    | _ => none
+  let rs ← (← items r "R").mapM (parseRt false)
+  let ss ← (← items su "S").mapM (parseRt false)
+  let ns ← (← items n "N").mapM fun x => match x.splitOn "/" with
+    | [nd, sg, v] => do
+      pure ({ node := ← parseNode nd, signers := ← parseNats sg, sigValid := v != "0" } : SignedNode)
+    | _ => none
+  let ts ← (← items t "T").mapM fun x => match x.splitOn ":" with
+    | [id, p, f] => do
+      pure (← id.toNat?, ({ expirationProcessed := p == "1", freezeEndTime := ← f.toNat? } : Status))
+    | _ => none
+  pure { entities := es, runtimes := rs, suspendedRuntimes := ss, nodes := ns, statuses := ts }
 
 /-! ### operations -/
 
@@ -158,16 +212,16 @@ def exec (st : St) (w : List String) : Option (State × String) :=
   let s := st.s
   match w with
   | ["regentity", tx, id, ns, ds, v] => do
-    let r := regEntity s (← tx.toNat?) { id := ← id.toNat?, nodes := ← parseNats ns, signer := ← ds.toNat?, sigValid := bool01 v }
+    let r := regEntity false s (← tx.toNat?) { id := ← id.toNat?, nodes := ← parseNats ns, signer := ← ds.toNat?, sigValid := bool01 v }
     pure (r.1, r.2.toString)
   | ["deregentity", tx] => do
     let r := deregEntity s (← tx.toNat?)
     pure (r.1, r.2.toString)
   | ["regnode", tx, n, sg, v] => do
-    let r := regNode st.ord s (← tx.toNat?) { node := ← parseNode n, signers := ← parseNats sg, sigValid := bool01 v }
+    let r := regNode false st.ord s (← tx.toNat?) { node := ← parseNode n, signers := ← parseNats sg, sigValid := bool01 v }
     pure (r.1, r.2.toString)
   | ["regruntime", c, id, ent, g, k] => do
-    let r := regRuntime s (← parseAddr c)
+    let r := regRuntime false s (← parseAddr c)
       { id := ← id.toNat?, entity := ← ent.toNat?, gov := ← parseGov g, kind := ← parseKind k, suspended := false }
     pure (r.1, r.2.toString)
   | ["epoch", e] => do
@@ -179,6 +233,15 @@ def exec (st : St) (w : List String) : Option (State × String) :=
   | ["removenode", n] => do pure (removeNode s (← parseNode n), "ok")
   | ["setstatus", id, p] => do
     pure ({ s with status := s.status.set (← id.toNat?) { expirationProcessed := p == "1" } }, "ok")
+  | ["unfreeze", tx, id] => do
+    let r := unfreezeNode s (← tx.toNat?) (← id.toNat?)
+    pure (r.1, r.2.toString)
+  | ["freeze", id, u] => do pure (freezeNode s (← id.toNat?) (← u.toNat?), "ok")
+  | ["setbalance", a, v] => do pure (setBalance s (← parseAddr a) (← v.toNat?), "ok")
+  | ["initchain", e, r, su, n, t] => do
+    let g ← parseGenesis e r su n t
+    let res := initChain st.ord s g
+    pure (res.1, res.2.toString)
   | ["suspend", r] => do
     let r ← r.toNat?
     match s.runtimes.get r with
@@ -199,11 +262,16 @@ def splitAt (sep : String) (w : List String) : List String × List String :=
 def step (st : St) (line : String) : St × String :=
   match words line with
   | [] => (st, "ok")
-  | ["new", mx, db, mode] =>
-    match mx.toNat?, db.toNat? with
-    | some mx, some db =>
-      ({ st with s := init { maxNodeExpiration := mx, debondingInterval := db }, spec := mode == "tx", dead := false }, "ok")
-    | _, _ => ({ st with dead := true }, "DIVERGE bad-op")
+  | "new" :: mx :: db :: mode :: rest =>
+    let thr : Option (List Nat) := match rest with
+      | [] => some []
+      | [t] => parseNats t
+      | _ => none
+    match mx.toNat?, db.toNat?, thr with
+    | some mx, some db, some thr =>
+      ({ st with s := init { maxNodeExpiration := mx, debondingInterval := db, thresholds := thr },
+                 spec := mode == "tx", dead := false }, "ok")
+    | _, _, _ => ({ st with dead := true }, "DIVERGE bad-op")
   | w =>
     if st.dead then (st, "skip") else
     let fail (msg : String) : St × String := ({ st with dead := true }, msg)
